@@ -182,6 +182,11 @@ func c18GlobalRules() []auth.ACLRule {
 			out = append(out, auth.ACLRule{Client: auth.RString(cp), Filters: f})
 		}
 	}
+	// a filters mapping that is present but empty (filters: {} in YAML/JSON) is as much
+	// "no filters" as an absent one (appended last: indices above are used by c18Cases)
+	for _, cp := range []string{"", "c1", "c*", "zz"} {
+		out = append(out, auth.ACLRule{Client: auth.RString(cp), Filters: auth.Filters{}})
+	}
 	return out
 }
 
